@@ -26,6 +26,9 @@ pub struct Scn {
     pub gaps_ns: Vec<u64>,
     pub hash_key: u64,
     pub table_size: usize,
+    /// requests carry an OPT record (a slipped response must keep its OPT and nothing else)
+    #[serde(default)]
+    pub edns: bool,
 }
 pub struct C26;
 
@@ -117,6 +120,7 @@ impl Prop for C26 {
             gaps_ns,
             hash_key: r.next(),
             table_size: *pick(r, &[1usize, 3, 64]),
+            edns: chance(r, 30),
         }
     }
     fn plan(r: &mut SplitMix, _scn: &Scn) -> ExecPlan {
@@ -251,13 +255,17 @@ fn run(scn: &Scn) {
                 true
             }
         };
-        let msg = wire::query(i as u16, qn, wire::T_A);
+        let msg = wire::query_full(i as u16, &wire::name(qn), wire::T_A, wire::C_IN, 0, if scn.edns { Some(1232) } else { None });
         let got = qz::ask_buf(&server, &msg, src, Transport::Udp, &mut buf);
         // classify
         let (full, slipped) = match got {
             None => (false, false),
             Some(n) => match wire::decode(&buf[..n]) {
                 Ok(m) => {
+                    if m.tc() && scn.edns && m.opt().is_none() {
+                        viol("slipped-response-lost-its-opt", format!("step {i}: the request carried OPT, the slipped response does not"));
+                        break;
+                    }
                     if m.tc() {
                         if !m.answers.is_empty() || !m.authority.is_empty() || m.additional.iter().any(|r| r.rtype != wire::T_OPT && r.rtype != wire::T_TSIG) {
                             viol("slipped-response-carries-records", format!("step {i}"));
